@@ -40,6 +40,11 @@ contract(
     types={"__params__": ["repl", "string"], "string": "str"},
     requires=[], ensures=["result[0] == GfmFilter(string)"], returns="tuple[str, int]", modifies=[], pure=True, trusted=True,
 )
+contract(
+    f"ext:{M}.RE_FLOW.sub",
+    types={"__params__": ["repl", "string"], "string": "str"},
+    requires=[], ensures=["result == GfmFilter(string)"], returns="str", modifies=[], pure=True, trusted=True,
+)
 assumed("RE_FLOW.subn", "the substitution with the module's callback is the abstract function GfmFilter of the text; WHICH tags it "
         "neutralises (the regular expression itself) is decided only by the bounded check", "re")
 
